@@ -1226,6 +1226,7 @@ def check_psbt_satisfier(chk, F):
     inp.fields["tap_key_sig"] = some("ksig")
     inp.fields["tap_script_sigs"] = PyMap([((("xonly", "X1"), "L1"), "t11"), ((("xonly", "X1"), "L2"), "t12"), ((("xonly", "X2"), "L1"), "t21")])
     inp.fields["tap_scripts"] = PyMap([("cb1", ("script1", "ver"))])
+    inp.fields["tap_key_origins"] = PyMap([(("xonly", "X3"), (PyVec([]), "src"))])
     ps = mk_psbt(2, 0, [0], [inp])
     sat = Adt(SATF, "PsbtInputSatisfier", {"psbt": ps, "index": 0})
     ECD = lambda k: ("h160", "Ecdsa", k)
@@ -1244,6 +1245,11 @@ def check_psbt_satisfier(chk, F):
         ("lookup_raw_pkh_tap_leaf_script_sig", [(SCH("X2"), "L1")], some((("xonly", "X2"), "t21"))),
         ("lookup_raw_pkh_tap_leaf_script_sig", [(SCH("X2"), "L2")], NONE),
         ("lookup_raw_pkh_tap_leaf_script_sig", [(ECD("X1"), "L1")], NONE),
+        # the x-only key behind a hash (the key push of a raw-pkh tapscript leaf): from the taproot key origins or the
+        # script-spend signatures
+        ("lookup_raw_pkh_x_only_pk", [SCH("X1")], some(("xonly", "X1"))), ("lookup_raw_pkh_x_only_pk", [SCH("X3")], some(("xonly", "X3"))),
+        ("lookup_raw_pkh_x_only_pk", [SCH("X9")], NONE), ("lookup_raw_pkh_x_only_pk", [ECD("X1")], NONE),
+        ("lookup_raw_pkh_x_only_pk", [SCH("K2")], NONE),
     ]
     n = 0
     for name, args, want in table:
